@@ -124,8 +124,10 @@ def litOcc (k : Bytes) : Pat → Nat
   | _ :: rest => litOcc k rest
 
 /-- `CleanFill` for one choice of "the search text of a literal" (`key`): the property sentence's
-    reading uses the literal itself (`key = id`); the matcher searches for the literal without its
-    trailing slashes (`key = cmpOfConst`, see known finding K1).
+    reading uses the literal itself (`key = id`) – that is also what the matcher searches for on a
+    filled path since the repair of former known finding K1 (`C02.fullConst`); `key = cmpOfConst`
+    (the literal without its trailing slashes, `ComparePart`) only describes the region that finding
+    covered.
 
     For every parameter with value `v` and everything behind it rendered as `tail`:
     * named values and `+` are non-empty unless optional; named values contain no `/`;
@@ -165,9 +167,6 @@ def greedyOnce (key : Bytes → Bytes) : Pat → List Bytes → Bool
 
 /-- the property sentence's hypothesis on the values -/
 def CleanFill (p : Pat) (vals : List Bytes) : Bool := cleanFillWith id p vals
-
-/-- what the matcher needs -/
-def CleanFillCmp (p : Pat) (vals : List Bytes) : Bool := cleanFillWith cmpOfConst p vals
 
 /-- configuration-normalised pattern / values (case folding) -/
 def foldTok (cfg : Config) : Tok → Tok
